@@ -547,6 +547,8 @@ CDrop(c) ==
                    attVars, rs, dl, cur, syncEv, timer, writeVars, done>>
 
 \* the remote lane
+\* the target of an EVENT downlink: a value-kind lane without state (a sync is answered by a bare synced)
+Stateless == Kind = "value" /\ InitLane = {}
 Snapshot ==
     IF Kind = "value"
       THEN LET S == LookUp(lane, "*") IN IF S = {} THEN <<>> ELSE <<Ev([o |-> "set", v |-> CHOOSE x \in S : TRUE])>>
@@ -579,7 +581,7 @@ RRead(hold) ==
            out == IF hold THEN <<>> ELSE outbox \o ans IN
        /\ wire' = Tail(wire)
        /\ rlinked' = (rlinked \/ f.t \in {"link", "sync"})
-       /\ lane' = IF f.t = "cmd" /\ Valid(f.op) THEN ApplyOp(lane, f.op) ELSE lane
+       /\ lane' = IF f.t = "cmd" /\ Valid(f.op) /\ ~Stateless THEN ApplyOp(lane, f.op) ELSE lane
        /\ outbox' = IF hold THEN outbox \o ans ELSE <<>>
        /\ down' = down \o out
        /\ Act([k |-> "rread", hold |-> hold, frame |-> f, resp |-> out],
@@ -604,7 +606,7 @@ RSet(o, k) ==
     /\ (o \in {"take", "drop"}) => (rlinked /\ LastView(p) = lane)
     /\ LET op == MkOp(o, k, RVal(nset + 1))
            out == IF rlinked THEN outbox \o <<Ev(op)>> ELSE outbox IN
-       /\ nset' = nset + 1 /\ lane' = ApplyOp(lane, op)
+       /\ nset' = nset + 1 /\ lane' = IF Stateless THEN lane ELSE ApplyOp(lane, op)
        /\ outbox' = <<>> /\ down' = down \o out
        /\ Act([k |-> "rset", op |-> op, resp |-> out], RSends(out))
     /\ NoRead
